@@ -678,6 +678,79 @@ def oracle_groups(ctx):
 
 
 # ---- twists: compared as the motions they generate ------------------------------------------------------------
+def oracle_histories(ctx):
+    """group laws on objects with a HISTORY: inverse, quotient and negative power are functions of the CURRENT values, whatever was asked of the
+    object before and however it was updated in place since (item assignment, reverse, append + pop, insert + delete, extend + delete) --
+    a result remembered from an earlier call must not survive a length-preserving update"""
+    rng = ctx.rng
+    for alg in ALGS:
+        for rep in range(ctx.n(6, 60)):
+            k = int(rng.integers(2, 5))
+            vals = [alg.sample(rng) for _ in range(k)]
+            X = alg.wrap_seq(vals)
+            Y = alg.wrap(alg.sample(rng))
+            yv = alg.unwrap(Y)
+
+            def verify(stage):
+                cur = alg.unwrap_seq(X, len(vals))
+                scale = max([1.0] + [alg.tmag(v) for v in vals] + [alg.tmag(yv)]) ** 2
+                rep_in = {'class': alg.name, 'stage': stage, 'values_hex': [hexl(v) for v in vals]}
+                ctx.case(('hist', alg.name, stage, rep))
+                ctx.count('oracle:history')
+                for i, (c, v) in enumerate(zip(cur, vals)):
+                    if not alg.dist(c, v) <= TOL * scale:
+                        ctx.fail(f'oracle:{alg.name}:history:{stage}:stored-value', f"{alg.name}: value {i} after {stage} is not the value assigned", rep_in)
+                        return
+                try:
+                    got = {'inv': alg.unwrap_seq(X.inv(), len(vals)),
+                           'x*inv': alg.unwrap_seq(X * X.inv(), len(vals)),
+                           'y/x': alg.unwrap_seq(Y / X, len(vals)),
+                           'pow-1': alg.unwrap_seq(X ** -1, len(vals)),
+                           'pow-2': alg.unwrap_seq(X ** -2, len(vals))}
+                except Exception as ex:  # noqa
+                    ctx.fail(f'oracle:{alg.name}:history:{stage}:raises-{type(ex).__name__}', f"{alg.name}: inverse / quotient / power after {stage} raises {type(ex).__name__}: {ex}", rep_in)
+                    return
+                want = {'inv': [alg.inv(v) for v in vals], 'x*inv': [alg.ident() for v in vals], 'y/x': [alg.mul(yv, alg.inv(v)) for v in vals],
+                        'pow-1': [alg.inv(v) for v in vals], 'pow-2': [alg.mul(alg.inv(v), alg.inv(v)) for v in vals]}
+                for law in got:
+                    for i, (g_, w_) in enumerate(zip(got[law], want[law])):
+                        if not alg.dist(g_, w_) <= TOL * scale:
+                            ctx.fail(f'oracle:{alg.name}:history:{law}:stale-or-wrong-after-update',
+                                     f"{alg.name}: {law} of value {i} after [{stage}] differs from the one computed from the current value by {alg.dist(g_, w_):.3g} "
+                                     f"(the object was asked for its inverse before the update)", dict(rep_in, law=law, index=i))
+                            return
+            verify('construction')                      # also primes anything the object may remember
+            j = int(rng.integers(0, k))
+            nv = alg.sample(rng)
+            X[j] = alg.wrap(nv)
+            vals[j] = nv
+            verify('item assignment')
+            X.reverse()
+            vals.reverse()
+            verify('reverse')
+            nv = alg.sample(rng)
+            X.append(alg.wrap(nv))
+            X.pop(0)
+            vals.append(nv)
+            vals.pop(0)
+            verify('append then pop(0)')
+            nv = alg.sample(rng)
+            X.insert(1, alg.wrap(nv))
+            del X[0]
+            vals.insert(1, nv)
+            del vals[0]
+            verify('insert then del')
+            nv2 = [alg.sample(rng) for _ in range(2)]
+            X.extend(alg.wrap_seq(nv2))
+            del X[0:2]
+            vals.extend(nv2)
+            del vals[0:2]
+            verify('extend then del slice')
+            X *= Y
+            vals = [alg.mul(v, yv) for v in vals]
+            verify('in-place product')
+
+
 def rot_angle(R):
     n = R.shape[0]
     if n == 2:
@@ -875,6 +948,7 @@ def run(ctx):
         with ctx.timed('oracle'):
             oracle_groups(ctx)
             oracle_twists(ctx)
+            oracle_histories(ctx)
         for f in futs:
             f.result()
     # keep the obligations in file order whatever the completion order was
